@@ -326,7 +326,7 @@ Definition all_same (d : dtype) (l : list dtype) : bool := forallb (dtype_eqb d)
 
 Definition create_backend (s : db) (p : option nat) (k : kind) (name type : string)
            (lk : links) (py : payload) : db * res value :=
-  (* util::createId(), then openGroup(name, create) *)
+  (* util::createId(), then openGroup(name, create) / createData(name, ...) *)
   if h5_bad_link_name name then fail (bump s) EH5
   else ret (add_ent s (mkEnt (new_hdr s k p name type) lk py)) (VEnt (Some (next s))).
 
@@ -367,10 +367,10 @@ Definition do_create (s : db) (pk : option kind) (p : option nat) (k : kind) (na
       if b_df_cols_check B && Nat.eqb (List.length cols) 0 then fail s EInvArg else
       if b_df_cols_check B && existsb (fun c => dtype_eqb (c_dtype c) DNothing) cols then fail s EInvArg else
       match dup_col [] cols with Some e => fail s e | None =>
-      if h5_bad_link_name name then fail (bump s) EH5 else
-      if negb (b_df_cols_check B) && (Nat.eqb (List.length cols) 0 || existsb (fun c => dtype_eqb (c_dtype c) DNothing) cols)
+      if negb (b_df_cols_check B) && negb (h5_bad_link_name name) &&
+         (Nat.eqb (List.length cols) 0 || existsb (fun c => dtype_eqb (c_dtype c) DNothing) cols)
       then fail (add_ent s (mkEnt (new_hdr s k p name type) no_links (mkPay DNothing [] [] None None [] EmptyString))) EH5
-      else ret (add_ent s (mkEnt (new_hdr s k p name type) no_links py)) (VEnt (Some (next s)))
+      else create_backend s p k name type no_links py
       end end end
     else
       (* today: no name / type / duplicate check at all *)
@@ -417,9 +417,7 @@ Definition do_create (s : db) (pk : option kind) (p : option nat) (k : kind) (na
     match lookup_named pk c name with Some _ => fail s EDup | None =>
     (* createId, properties group, then data_type_to_h5_filetype(dtype) before the dataset is created *)
     if negb (h5_storable dt) then fail (bump s) EInvArg else
-    if h5_bad_link_name name then fail (bump s) EH5Err else
-    ret (add_ent s (mkEnt (new_hdr s k p name EmptyString) no_links (set_extent [8%Z] (set_dtype dt no_payload))))
-        (VEnt (Some (next s)))
+    create_backend s p k name EmptyString no_links (set_extent [8%Z] (set_dtype dt no_payload))
     end end
   | KProperty, XPropV vals =>
     match vals with
@@ -429,11 +427,11 @@ Definition do_create (s : db) (pk : option kind) (p : option nat) (k : kind) (na
       match check_name name with Some e => fail s e | None =>
       match lookup_named pk c name with Some _ => fail s EDup | None =>
       if negb (h5_storable d0) then fail (bump s) EInvArg else
-      if h5_bad_link_name name then fail (bump s) EH5Err else
       let n := Z.of_nat (List.length vals) in
-      let s1 := add_ent s (mkEnt (new_hdr s k p name EmptyString) no_links (set_extent [n] (set_dtype d0 no_payload))) in
       (* p->values(values): same first type, setExtent(n), then the element loop *)
-      if all_same d0 vals then ret s1 (VEnt (Some (next s))) else fail s1 EInvArg
+      if all_same d0 vals then create_backend s p k name EmptyString no_links (set_extent [n] (set_dtype d0 no_payload))
+      else if h5_bad_link_name name then fail (bump s) EH5
+      else fail (add_ent s (mkEnt (new_hdr s k p name EmptyString) no_links (set_extent [n] (set_dtype d0 no_payload)))) EInvArg
       end end
     end
   | KFeature, XFeatH data lt =>
@@ -444,8 +442,8 @@ Definition do_create (s : db) (pk : option kind) (p : option nat) (k : kind) (na
     | Some b =>
       match block_find_key (children s (Some b) KArray) (hid s data) with
       | None => fail s ERuntime
-      | Some a => ret (add_ent s (mkEnt (new_hdr s k p EmptyString EmptyString) (set_o OData (Some (e_oid a)) no_links)
-                                        (mkPay DNothing [] [] None None [] lt))) (VEnt (Some (next s)))
+      | Some a => create_backend s p k EmptyString EmptyString (set_o OData (Some (e_oid a)) no_links)
+                                 (mkPay DNothing [] [] None None [] lt)
       end
     end
   | KFeature, XFeatS key lt =>
@@ -454,8 +452,8 @@ Definition do_create (s : db) (pk : option kind) (p : option nat) (k : kind) (na
     | Some b =>
       match block_find_key (children s (Some b) KArray) key with
       | None => fail s ERuntime
-      | Some a => ret (add_ent s (mkEnt (new_hdr s k p EmptyString EmptyString) (set_o OData (Some (e_oid a)) no_links)
-                                        (mkPay DNothing [] [] None None [] lt))) (VEnt (Some (next s)))
+      | Some a => create_backend s p k EmptyString EmptyString (set_o OData (Some (e_oid a)) no_links)
+                                 (mkPay DNothing [] [] None None [] lt)
       end
     end
   | _, _ => fail s EModel
@@ -934,7 +932,13 @@ Definition step (s : db) (o : op) : db * res value :=
       | None => ret s (VBool false)
       | Some e => res_value s (lookup_h s pk p k e false) vbool_of
       end)
-  | OGet p k key => with_container s p k (fun pk => res_value s (lookup s pk p k key) vopt)
+  | OGet p k key =>
+    with_container s p k (fun pk =>
+      (* Tag::getFeature(string) checks for the empty string (MultiTag::getFeature does not) *)
+      match pk, k with
+      | Some KTag, KFeature => if is_empty_str key then fail s EEmpty else res_value s (lookup s pk p k key) vopt
+      | _, _ => res_value s (lookup s pk p k key) vopt
+      end)
   | OGetIdx p k i => with_container s p k (fun pk => get_idx s pk p k i)
   | OCount p k => with_container s p k (fun _ => ret s (VNat (List.length (children s p k))))
   | OList p k => with_container s p k (fun pk => list_children s pk p k)
